@@ -431,8 +431,8 @@ func ruleStatusFlow(c *Ctx, rule string) {
 	}
 	// server emit
 	n := 0
-	for _, e := range c.realEmitSites() {
-		if e.Kind != "ServerToClient_CloseStream" || topFn(e.Fn) != a.ServerFinish {
+	for _, e := range c.emitSeq() {
+		if e.Kind != "ServerToClient_CloseStream" || !w.ownedBy(e.Fn, a.ServerFinish) {
 			continue
 		}
 		n++
@@ -755,7 +755,7 @@ func ruleMetadataAccumulation(c *Ctx, rule string) {
 	}
 	// emitted headers
 	n := 0
-	for _, e := range c.realEmitSites() {
+	for _, e := range c.emitSeq() {
 		if e.Kind != "ServerToClient_ResponseHeaders" {
 			continue
 		}
@@ -780,7 +780,7 @@ func ruleMetadataAccumulation(c *Ctx, rule string) {
 		c.checkConverter(rule, fn)
 	}
 	// request side: new_stream
-	for _, e := range c.realEmitSites() {
+	for _, e := range c.emitSeq() {
 		if e.Kind != "ClientToServer_NewStream" {
 			continue
 		}
@@ -1155,7 +1155,7 @@ func ruleStringTaint(c *Ctx, rule string) {
 	key := "toProto: metadata value -> tunnelpb.Metadata_Values.Val (proto3 string) without UTF-8 validation or encoding"
 	c.check(validated, rule, key, w.Pos(fn.Pos()), "values are validated or encoded", "metadata values flow unmodified into a proto3 string field; a non-UTF-8 value (legal for '-bin' keys) makes the frame unmarshalable, grpc-go fails the carrier stream and the whole tunnel ends (every RPC on it is cancelled)")
 	n := len(w.callSitesOf(fn))
-	c.floor(rule, n, 4, "callers of the metadata converter (headers x2, trailers, request metadata)")
+	c.floor(rule, n, 2, "callers of the metadata converter (request metadata, response metadata)")
 }
 
 // ---------- C07 ----------
@@ -1545,8 +1545,8 @@ func ruleOutcomeLatched(c *Ctx, rule string) {
 		}
 	})
 	n := 0
-	for _, e := range c.realEmitSites() {
-		if e.Kind != "ServerToClient_CloseStream" || topFn(e.Fn) != fin {
+	for _, e := range c.emitSeq() {
+		if e.Kind != "ServerToClient_CloseStream" || !w.ownedBy(e.Fn, fin) {
 			continue
 		}
 		n++
